@@ -729,6 +729,32 @@ func (v *FnVC) evalCall(e *ECall, env *Env) Term {
 			ref = fmt.Sprintf("(sarr %s)", a.S)
 		}
 		return boolT(fmt.Sprintf("(>= %s %s)", ref, pre.S))
+	case "addrOf": // addrOf(x.f): the address of a struct-typed field (as the SSA encoding names interior pointers)
+		sel, ok := e.Args[0].(*ESel)
+		if !ok {
+			v.fail("addrOf needs a field selector")
+		}
+		var base Term
+		if bp, ok := v.lvalueBase(sel.X, env); ok {
+			base = bp
+		} else {
+			base = v.evalTerm(sel.X, env)
+		}
+		if base.T == nil {
+			v.fail("addrOf: untyped base")
+		}
+		stT := deref(base.T)
+		st, isS := structOf(stT)
+		if _, isP := base.T.Underlying().(*types.Pointer); !isP || !isS {
+			v.fail("addrOf: base must be a pointer to a struct")
+		}
+		for k := 0; k < st.NumFields(); k++ {
+			if st.Field(k).Name() == sel.Sel {
+				l := &Loc{Kind: LField, Key: v.fieldKey(stT, st.Field(k)), Ref: base.S, T: st.Field(k).Type(), RootT: st.Field(k).Type()}
+				return Term{S: v.ptrTerm(l), Sort: "Int", T: types.NewPointer(st.Field(k).Type())}
+			}
+		}
+		v.fail("addrOf: no field %s", sel.Sel)
 	case "refOf": // identity of the object behind an interface value / pointer
 		a := v.evalTerm(e.Args[0], env)
 		if a.Sort == "Iface" {
